@@ -1,0 +1,12 @@
+//go:build verif
+
+package varsig
+
+// Contracts for the deductive verifier in /verif (govc). Comment-only file.
+
+// varsigOf(kt): the constant varsig header go-ucan announces for libp2p key type kt.
+//@ ghost func varsigOf(kt int) string
+//@
+//@ func Encode
+//@   trusted
+//@   ensures result1 == nil ==> bytes(result0) == varsigOf(keyType)
